@@ -81,7 +81,7 @@ def constantRecorderCtor : String := "NewCPTVFileRecorder"
 def cptvTempExt : String := "cptv.temp"
 
 /-- deleteTempFiles: the glob pattern expression -/
-def cleanupGlobExpr : String := "\"*.\" + cptvTempExt"
+def cleanupGlobExpr : String := "\"*.\" + cptvTempExt + \"*\""
 
 /-- newRecordingTempName: time layout expression -/
 def tempNameLayoutExpr : String := "\"20060102.150405.000.\" + cptvTempExt"
